@@ -4,3 +4,4 @@ pub mod engine;
 pub mod props;
 pub mod reader_model;
 pub mod source;
+pub mod writer_model;
